@@ -39,12 +39,25 @@
      separately with the same arguments) are the two projections of ONE fold object over (input,label)
      pairs: same folds, and in the reorganised set and in every validation / training part the i-th
      input sits next to the i-th label.
-   NOT proved (tie by the correspondence run only): that the C++ loops (per-fold batchElements /
-   validationSetStart bookkeeping, subBatch through a DataView, std::set_difference in detail::complement)
-   compute the list functions of the model (regroup = gather + chunk, complement); the distribution of the
-   random draws (the theorems hold for every outcome).                                               *)
+   THE LOOPS AS WRITTEN (C12Loops.v; this is what the model driver executes for createCVIndexed, createCVFullyIndexed,
+   createCVSameSizeBalanced, createCVIID and for training(i) on every case):
+   - the construction loop shared by the three constructors (for every (source position, fold) step:
+     batchElements[fold].push_back; when the size of batch validationSetStart[fold] is reached:
+     newSet.batch(validationSetStart[fold]) = subBatch(view, batchElements[fold]), clear, ++validationSetStart[fold])
+     fills newSet with exactly chunk batchSizes (the positions named for fold 0 in step order, then fold 1, ...)
+     (C12_construction_loop); with the step sequences of the three constructors that is the gather order of the model;
+   - subBatch through a DataView (subset of the view, createBatch) reads the elements at the given positions (C12_sub_batch);
+   - hence the loop-built fold objects ARE the ones of cv_create (C12_loop_constructors_are_cv_create), so every theorem
+     above holds for them;
+   - detail::complement (iota, insertion-sorted copy, std::set_difference as in libstdc++) = the filter [complement] of the
+     model, for any index list, duplicates and any order included (C12_complement_set_difference), so training(i) computed
+     through it is the training(i) of the theorems (C12_training_through_set_difference).
+   NOT proved (tie by the correspondence run only): std::sort is modelled by insertion sort (any sorting function yields the
+   same sorted list); the CVFolds(set, foldStart) constructor loop is folds_from_starts by definition (seq);
+   createCVSameSize uses repartition + shuffle (C03 model), createCVBatch copies index ranges (no loop model needed);
+   the distribution of the random draws (the theorems hold for every outcome).                          *)
 From Coq Require Import List Arith Permutation.
-From SharkV Require Import ListAux C03Model C03Proofs C03Class C12Model C12Proofs C12BalancedProofs C12Folds C12FoldsProofs C12PairingProofs.
+From SharkV Require Import ListAux C03Model C03Proofs C03Class C12Model C12Proofs C12BalancedProofs C12Folds C12FoldsProofs C12PairingProofs C12Loops C12LoopsProofs.
 Import ListNotations.
 
 Theorem C12_same_size_fold_sizes :
@@ -351,3 +364,54 @@ Example C12_pairing_example :
   exists c, cv_create (0, 0) (ReqBatch [1;0] 2) [[(10, 0); (11, 1)]; [(12, 1)]] = Some c /\
             validation (cv_map fst c) 0 = Some [[12]] /\ validation (cv_map snd c) 0 = Some [[1]].
 Proof. eexists. vm_compute. repeat split; reflexivity. Qed.
+
+(* ================= the loops as written (C12Loops.v / C12LoopsProofs.v) ================= *)
+
+(* the construction loop: bszs = batch sizes of fold 0, of fold 1, ... (all >= 1); batchSizes = their concatenation,
+   partitionStart = the prefix sums of the numbers of batches; steps = (source position, fold) in loop order, every fold
+   named exactly as often as it has room.  [newset] = the batches of newSet as lists of source positions. *)
+Theorem C12_construction_loop :
+  forall bszs : list (list nat), (forall p s, In s (nth p bszs []) -> 1 <= s) ->
+  forall steps,
+    (forall sp, In sp steps -> snd sp < length bszs) ->
+    (forall p, p < length bszs -> count_eq (map snd steps) p = sum (nth p bszs [])) ->
+    newset (cv_loop (concat bszs) (pstarts (map (@length nat) bszs) 0) (length bszs) steps) =
+    chunk (concat bszs) (flat_map (fun p => map fst (filter (fun sp => snd sp =? p) steps)) (seq 0 (length bszs))).
+Proof. exact cv_loop_newset. Qed.
+Print Assumptions C12_construction_loop.
+
+Theorem C12_sub_batch :
+  forall A (dflt : A) (d : @data A) idxs, forallb (fun i => i <? nelems d) idxs = true ->
+    sub_batch d idxs = Some (map (fun i => nth i (elems d) dflt) idxs).
+Proof. intros A. exact (@sub_batch_spec A). Qed.
+Print Assumptions C12_sub_batch.
+
+Theorem C12_loop_constructors_are_cv_create :
+  forall A (dflt : A) req (d : @data A), cv_create_loop dflt req d = cv_create dflt req d.
+Proof. intros A. exact (@cv_create_loop_correct A). Qed.
+Print Assumptions C12_loop_constructors_are_cv_create.
+
+Theorem C12_complement_set_difference :
+  forall idx n, complement_sd idx n = complement idx n.
+Proof. exact complement_sd_correct. Qed.
+Print Assumptions C12_complement_set_difference.
+
+Theorem C12_training_through_set_difference :
+  forall A (c : @cv A) p, training_sd c p = training c p.
+Proof. intros A. exact (@training_sd_correct A). Qed.
+Print Assumptions C12_training_through_set_difference.
+
+(* with shapes: what the driver runs *)
+Theorem C12_shaped_loop_constructors :
+  forall A S (dflt : A) req (x : sdata A S),
+    scv_create_loop dflt req x = scv_create dflt req x /\
+    forall (c : scv A S) p, s_training_sd c p = s_training c p.
+Proof. intros A S dflt req x. split; [apply scv_create_loop_correct|intros; apply s_training_sd_correct]. Qed.
+Print Assumptions C12_shaped_loop_constructors.
+
+(* the loop on the steps (2,1) (0,0) (1,1) (3,0) (4,1), fold 0 = one batch of 2, fold 1 = batches of 2 and 1 *)
+Example C12_loop_example :
+  newset (cv_loop [2;2;1] [0;1] 2 [(2,1);(0,0);(1,1);(3,0);(4,1)]) = [[0;3];[2;1];[4]] /\
+  complement_sd [3;0;3] 5 = [1;2;4] /\
+  cv_create_loop 0 (ReqIndexed [1;0;1;2;0] 3 2) [[10;11;12];[13;14]] = cv_create 0 (ReqIndexed [1;0;1;2;0] 3 2) [[10;11;12];[13;14]].
+Proof. vm_compute. repeat split; reflexivity. Qed.
